@@ -6,7 +6,14 @@
 // r1::deallocate is interposed (-Wl,--wrap): freeing a proxy becomes a note (exactly-once / no-access-after-free monitors).
 //
 // usage: mail <rand|dfs|replay> <arg> [maxruns]     scenario on stdin:
-//   owner m<id>:<iso> s<id>:<iso> g<iso> ...   recv <iso> ...   thief <iso> ...
+//   owner m<id>:<iso> s<id>:<iso> g<iso> w<k> ...   recv <iso> w<k> ...   thief <iso> ...   [opt reuse]
+//   w<k> = handshake: wait until the other side (owner <-> recipient) has completed k of its operations, so that a
+//   scenario can force "the recipient took the mailed task BEFORE the owner walks down to the proxy" (empty proxy);
+//   opt reuse = memory of a freed proxy is handed (LIFO, like the small-object pool) to the next task the owner creates.
+// Besides the access trace the owner prints, after each of its operations, a white-box snapshot
+//   snap <head> <tail> <task ids in task_pool_ptr[head..tail), _ = nullptr>
+// (the cells are plain memory: their CONTENT is compared with the model's pool at the same trace position), and the
+// implementation-side monitor checks that no cell in [head,tail) points to freed proxy memory / to a task twice.
 #include "oneapi/tbb/global_control.h"
 #include "oneapi/tbb/task_arena.h"
 #include "oneapi/tbb/task_group.h"
@@ -18,6 +25,7 @@
 #include "tbb/task_dispatcher.h"
 #include <cstdio>
 #include <map>
+#include <set>
 #include <sstream>
 #include <string>
 #include <vector>
@@ -32,7 +40,13 @@ struct Tk : d1::task {
 
 struct OOp { char kind; int id; long iso; };
 static std::vector<OOp> g_owner;
-static std::vector<long> g_recv;
+struct ROp { bool wait; long v; };
+static std::vector<ROp> g_recv;
+static bool g_reuse = false, g_sync = false;
+static std::atomic<int> g_odone{0}, g_rdone{0};    // completed operations of owner / recipient (handshakes)
+static std::vector<void*> g_freelist;               // opt reuse: blocks of freed proxies, LIFO
+static std::set<const void*> g_freed_addr;          // blocks of freed proxies not handed out again yet
+static const size_t BLOCK = 128;
 static std::vector<std::vector<long>> g_thieves;
 
 static r1::arena_slot* g_slot;
@@ -43,17 +57,21 @@ static std::map<const void*, int> g_proxy_of;    // proxy address -> task id it 
 static std::map<int, int> g_free_count;
 static std::map<int, int> g_freed_by;
 
+static void note_freed(void* ptr) {
+    if (g_freed_addr.insert(ptr).second && g_reuse) g_freelist.push_back(ptr);
+}
+
 extern "C" {
 void __real__ZN3tbb6detail2r110deallocateERNS0_2d117small_object_poolEPvmRKNS2_14execution_dataE(d1::small_object_pool&, void*, std::size_t, const d1::execution_data&);
 void __wrap__ZN3tbb6detail2r110deallocateERNS0_2d117small_object_poolEPvmRKNS2_14execution_dataE(d1::small_object_pool& p, void* ptr, std::size_t n, const d1::execution_data& ed) {
     auto it = g_proxy_of.find(ptr);
-    if (it != g_proxy_of.end()) { g_free_count[it->second]++; g_freed_by[it->second] = verif::self(); verif::note("free", (uint64_t)it->second, 0); return; }
+    if (it != g_proxy_of.end()) { g_free_count[it->second]++; g_freed_by[it->second] = verif::self(); verif::note("free", (uint64_t)it->second, 0); note_freed(ptr); return; }
     __real__ZN3tbb6detail2r110deallocateERNS0_2d117small_object_poolEPvmRKNS2_14execution_dataE(p, ptr, n, ed);
 }
 void __real__ZN3tbb6detail2r110deallocateERNS0_2d117small_object_poolEPvm(d1::small_object_pool&, void*, std::size_t);
 void __wrap__ZN3tbb6detail2r110deallocateERNS0_2d117small_object_poolEPvm(d1::small_object_pool& p, void* ptr, std::size_t n) {
     auto it = g_proxy_of.find(ptr);
-    if (it != g_proxy_of.end()) { g_free_count[it->second]++; g_freed_by[it->second] = verif::self(); verif::note("free", (uint64_t)it->second, 0); return; }
+    if (it != g_proxy_of.end()) { g_free_count[it->second]++; g_freed_by[it->second] = verif::self(); verif::note("free", (uint64_t)it->second, 0); note_freed(ptr); return; }
     __real__ZN3tbb6detail2r110deallocateERNS0_2d117small_object_poolEPvm(p, ptr, n);
 }
 }
@@ -79,9 +97,45 @@ static bool run_once(verif::Schedule& sch, int run_idx, bool print) {
     std::vector<long> pops;                           // isolation argument of every internal_pop call of the recipient
     std::vector<int> popped;                          // proxy (task id) returned by each pop, -1 = nullptr
     std::string err;
+    std::vector<std::string> snaps;
+    std::vector<void*> blocks;                        // every block allocated in this run
+    std::map<const void*, int> task_at;               // address of a plain task -> id
     g_proxy_of.clear(); g_free_count.clear(); g_freed_by.clear();
+    g_freelist.clear(); g_freed_addr.clear();
+    g_odone.a.store(0); g_rdone.a.store(0);
     verif::clear_names();
     g_slot->free_task_pool();
+    static_assert(sizeof(Tk) <= BLOCK && sizeof(r1::task_proxy) <= BLOCK, "block size");
+    auto fresh_block = [&]() -> void* { void* b = aligned_alloc(BLOCK, BLOCK); blocks.push_back(b); return b; };
+    // opt reuse: the next plain task the owner creates gets the block of the most recently freed proxy
+    auto task_block = [&]() -> void* {
+        if (g_reuse && !g_freelist.empty()) {
+            void* b = g_freelist.back(); g_freelist.pop_back();
+            g_freed_addr.erase(b); g_proxy_of.erase(b);
+            verif::note("reuse", 0, 0);
+            return b;
+        }
+        return fresh_block();
+    };
+    // white-box snapshot of [head, tail) taken by the owner between two of its operations (it holds the baton: raw reads)
+    auto snap = [&](size_t opidx) {
+        std::intptr_t H = (std::intptr_t)g_slot->head.a.load(std::memory_order_relaxed), T = (std::intptr_t)g_slot->tail.a.load(std::memory_order_relaxed);
+        std::string sn = std::to_string((long)H) + " " + std::to_string((long)T);
+        std::map<const void*, int> seen;
+        if (g_slot->task_pool_ptr) for (std::intptr_t i = H; i < T; ++i) {
+            d1::task* c = i >= 0 ? g_slot->task_pool_ptr[i] : nullptr;
+            if (!c) { sn += " _"; continue; }
+            int id = -1;
+            if (g_proxy_of.count(c)) id = g_proxy_of[c]; else if (task_at.count(c)) id = task_at[c];
+            sn += id < 0 ? std::string(" ?") : " " + std::to_string(id);
+            std::string where = " (cell " + std::to_string((long)i) + ", head " + std::to_string((long)H) + ", tail " + std::to_string((long)T) + ", after owner op " + std::to_string(opidx) + ")";
+            if (g_freed_addr.count(c)) { if (err.empty()) err = "VIOLATION a deque cell in [head,tail) points to the freed proxy of task " + std::to_string(id) + where; }
+            else if (id < 0) { if (err.empty()) err = "VIOLATION a deque cell in [head,tail) holds a pointer that is neither a live task nor a live proxy" + where; }
+            if (seen[c]++ && err.empty()) err = "VIOLATION task " + std::to_string(id) + " is referenced by two deque cells in [head,tail)" + where;
+        }
+        snaps.push_back(sn);
+        verif::note("snap", snaps.size() - 1, 0);
+    };
     r1::mail_outbox& box = g_arena->mailbox(RECIPIENT);
     r1::mail_inbox inbox; inbox.attach(box);
     auto got = [&](int id) { executed[id]++; };
@@ -98,15 +152,22 @@ static bool run_once(verif::Schedule& sch, int run_idx, bool print) {
     };
     std::vector<std::function<void()>> bodies;
     bodies.push_back([&] {
+        size_t opidx = 0;
         for (auto& op : g_owner) {
+            if (op.kind == 'w') {
+                while (g_rdone.load(std::memory_order_acquire) < op.id) _mm_pause();
+                g_odone.fetch_add(1);
+                ++opidx;
+                continue;
+            }
             if (op.kind == 's' || op.kind == 'm') {
-                Tk* t = new Tk; t->id = op.id; tasks.push_back(t);
+                Tk* t = new (op.kind == 's' ? task_block() : fresh_block()) Tk; t->id = op.id; tasks.push_back(t); task_at[t] = op.id;
                 r1::task_accessor::isolation(*t) = (r1::isolation_type)op.iso;
                 spawned[op.id]++;
                 if (op.kind == 'm') {
                     // task_dispatcher.cpp: spawn(t, ctx, id) with an affinity to another slot
                     d1::small_object_allocator alloc{};
-                    r1::task_proxy* proxy = new r1::task_proxy;
+                    r1::task_proxy* proxy = new (fresh_block()) r1::task_proxy;
                     proxies.push_back(proxy); proxy_task.push_back(op.id); g_proxy_of[proxy] = op.id;
                     r1::task_accessor::set_proxy_trait(*proxy);
                     r1::task_accessor::isolation(*proxy) = (r1::isolation_type)op.iso;
@@ -124,10 +185,16 @@ static bool run_once(verif::Schedule& sch, int run_idx, bool print) {
                 res[0].push_back(id);
                 if (t) got(id);
             }
+            snap(opidx++);
+            if (g_sync) g_odone.fetch_add(1);
         }
     });
     bodies.push_back([&] {
-        for (long iso : g_recv) { int id = recv_one(iso, true); res[1].push_back(id); if (id >= 0) got(id); }
+        for (auto& op : g_recv) {
+            if (op.wait) { while (g_odone.load(std::memory_order_acquire) < op.v) _mm_pause(); }
+            else { int id = recv_one(op.v, true); res[1].push_back(id); if (id >= 0) got(id); }
+            if (g_sync) g_rdone.fetch_add(1);
+        }
     });
     for (size_t k = 0; k < NT; ++k) bodies.push_back([&, k] {
         for (long iso : g_thieves[k]) {
@@ -189,7 +256,13 @@ static bool run_once(verif::Schedule& sch, int run_idx, bool print) {
         };
         std::vector<int> inx(2 + NT, 0);
         for (auto& e : r.log) {
-            if (e.kind == verif::K_NOTE && e.tag) { std::string tg = e.tag; if (tg == "xb") inx[e.tid] = 1; else if (tg == "xe") inx[e.tid] = 0; else if (tg == "free") printf("free %d %d\n", e.tid, (int)e.a); continue; }
+            if (e.kind == verif::K_NOTE && e.tag) {
+                std::string tg = e.tag;
+                if (tg == "xb") inx[e.tid] = 1; else if (tg == "xe") inx[e.tid] = 0; else if (tg == "free") printf("free %d %d\n", e.tid, (int)e.a);
+                else if (tg == "snap") printf("snap %s\n", snaps[(size_t)e.a].c_str());
+                else if (tg == "reuse") printf("reuse %d\n", e.tid);
+                continue;
+            }
             if (e.kind > verif::K_FXOR) continue;
             if (e.addr == ah || e.addr == at) {
                 long long a = (long long)e.a, b = (long long)e.b;
@@ -225,8 +298,7 @@ static bool run_once(verif::Schedule& sch, int run_idx, bool print) {
         fflush(stdout);
     }
     if (r.deadlock) { fflush(stdout); _exit(3); }
-    for (Tk* t : tasks) delete t;
-    for (auto* p : proxies) delete p;
+    for (void* b : blocks) free(b);
     return ok;
 }
 
@@ -242,10 +314,16 @@ int main(int argc, char** argv) {
                 op.kind = w[0];
                 if (w[0] == 's' || w[0] == 'm') sscanf(w.c_str() + 1, "%d:%ld", &op.id, &op.iso);
                 else if (w[0] == 'g') op.iso = atol(w.c_str() + 1);
+                else if (w[0] == 'w') { op.id = atoi(w.c_str() + 1); g_sync = true; }
                 else { printf("bad-op\n"); return 2; }
                 g_owner.push_back(op);
             }
-        } else if (w == "recv") { long x; while (is >> x) g_recv.push_back(x); }
+        } else if (w == "recv") {
+            while (is >> w) {
+                if (w[0] == 'w') { g_recv.push_back(ROp{true, atol(w.c_str() + 1)}); g_sync = true; }
+                else g_recv.push_back(ROp{false, atol(w.c_str())});
+            }
+        } else if (w == "opt") { while (is >> w) if (w == "reuse") g_reuse = true; }
         else if (w == "thief") { std::vector<long> v; long x; while (is >> x) v.push_back(x); g_thieves.push_back(v); }
     }
     tbb::global_control gc(tbb::global_control::max_allowed_parallelism, 1);
